@@ -443,8 +443,10 @@ def main():
         'wall_s': round(time.time() - t0, 2),
         'violations': len(violations),
     }
-    os.makedirs(os.path.join(VERIF, 'evidence'), exist_ok=True)
-    with open(os.path.join(VERIF, 'evidence', prop + '.json'), 'w') as f:
+    # evidence/ describes runs against /repo only; a run against a scratch copy (VERIF_REPO) keeps its record in the cache
+    evdir = os.path.join(VERIF, 'evidence') if os.path.realpath(REPO) == '/repo' else os.path.join(VERIF, '.cache', 'evidence-scratch')
+    os.makedirs(evdir, exist_ok=True)
+    with open(os.path.join(evdir, prop + '.json'), 'w') as f:
         json.dump(ev, f, indent=1)
     print('%s: %d obligations, %d discharged, %d known findings, %d violations (%.1fs)' % (prop, rep.obligations, rep.discharged, len(seen), len(violations), time.time() - t0))
     for r, n in sorted(rep.counts.items()):
